@@ -135,6 +135,7 @@ def check(tier):
 
 
 def replay(path):
+    """Step the recorded program on both machines, print the table, exit 1 at the first divergence."""
     import fickling.fickle as fk
 
     case = json.load(open(path))["case"]
@@ -143,11 +144,17 @@ def replay(path):
     p = fk.Pickled.load(full)
     interp = fk.Interpreter(p)
     vm = refvm.RefVM(full)
-    n = len(p) - 1
-    for k in range(n):
+    rc = 0
+    for k in range(len(p) - 1):
         op = interp.step()
         vm.step()
         marks = [i for i, x in enumerate(interp.stack) if isinstance(x, fk.MarkObject)]
+        same = len(interp.stack) == vm.depth() and marks == vm.mark_positions() and set(interp.memory) == set(vm.memo)
         print(f"{k:2d} {op.name:16s} F: depth={len(interp.stack)} marks={marks} memo={sorted(interp.memory)}"
-              f" | VM: depth={vm.depth()} marks={vm.mark_positions()} memo={sorted(vm.memo)}")
-    return 0
+              f" | VM: depth={vm.depth()} marks={vm.mark_positions()} memo={sorted(vm.memo)}{'' if same else '   <-- DIVERGES'}")
+        if not same:
+            rc = 1
+            break
+    if rc == 0 and case.get("kind") != "step":
+        rc = e1.replay_terminal(PROP, path, [trace_oracle])
+    return rc
